@@ -155,7 +155,8 @@ PLAN: Dict[str, dict] = {
             G("R-CALLTAIL", "non-constant results are re-aligned with the evaluated polynomial's indeterminates"),
             G("R-OPT-PINNED", "alignment keeps one layout under every option setting (operands with different name sets)", only=in_files("numpoly/align.py")),
             G("R-UNSIGNED", "no caller value meets an unsanitised uint32 exponent (value independent of the argument's type)", only=in_funcs("call")),
-            G("R-NAMES", "the indeterminates handed to the evaluation loop (iteration over poly.indeterminants) keep their names", only=in_files("numpoly/baseclass.py", "poly_function/call.py")),
+            G("R-NAMES", "the indeterminates handed to the evaluation loop (iteration over poly.indeterminants) keep their names", only=in_files("numpoly/baseclass.py", "poly_function/call.py", "numpoly/dispatch.py")),
+            G("R-CAST", "numbers turned into constant polynomials during partial evaluation are written whatever numeric type carries them (raw writer only for dtypes it implements)"),
             G("R-TERMZIP", "the evaluation loop pairs each exponent row with its own coefficient", only=in_funcs("call")),
         ],
         "explanation": "call(): branches raising TypeError for an unknown and for a doubly supplied indeterminate exist and every "
@@ -205,6 +206,8 @@ PLAN: Dict[str, dict] = {
             G("R-OPS", "/, %, divmod and reflected forms route to poly_divide/poly_remainder/poly_divmod, components 0/1", only=lambda f: any(k in f.function for k in ("div", "mod", "remainder"))),
             S("R-ALIGN", "dividend and divisor are aligned on entry and after every reduction step"),
             G("R-UNSIGNED", "the exponent subtraction is guarded by the candidate selection", only=in_funcs("poly_divmod", "get_division_candidate")),
+            G("R-ALIGNFN", "dividend and divisor are broadcast against each other with numpy's rules", only=msg("align_shape: broadcast")),
+            S("R-NAMES", "the masked quotient / subtrahend terms built through where() keep the operands' names"),
             G("R-OPT-PINNED", "alignment keeps one layout under every option setting (operands with different name sets)", only=in_files("numpoly/align.py")),
         ],
         "explanation": "Third sentence in full (operator routing with operand order, poly_divide/poly_remainder = components 0/1 of "
